@@ -1,9 +1,9 @@
 SPECIFICATION Spec
 CONSTANTS
   Configs <- QuickConfigs
-  MaxMeta = 4
-  MaxDemes = 6
-  MaxOffer = 2
+  MaxMeta = 8
+  MaxDemes = 9
+  MaxOffer = 3
   MaxLocal = 2
   AllowSelfStop = TRUE
   ExactOffers = FALSE
@@ -30,9 +30,4 @@ INVARIANT Inv_G_ClockNotAhead
 INVARIANT Inv_G_ClockInSync
 INVARIANT Inv_G_SinceSproutRawNonNeg
 INVARIANT Inv_G_SinceSproutBounded
-PROPERTY Act_C05_NoSproutAfterGsc
-PROPERTY Act_C06_InactiveFrozen
-PROPERTY Act_C06_StopCauses
-PROPERTY Act_C08_RoundWithinFree
-PROPERTY Act_C05_McMonotone
 CHECK_DEADLOCK FALSE
